@@ -87,6 +87,8 @@ def run(tier):
     for cfgname in cfgs:
         prog = Program.load(which=('SRC',), cfg=cfgname)
         eff = PathEffects(prog)
+        from ..rules import symbolic as _sym
+        _sym.dfs_twin_rule(chk, 'C15.dfs', prog, ['ilu_%scolumn_dfs' % q for q in 'sdcz'], cfgname)
         for g in ('equil', 'scale'):
             chk.clause('C15.' + g, 'R3 oracle group `%s` of ?gsisx' % g)
         chk.clause('C15.iluguard', 'R3 oracle group: what runs after ?gsitrf for each outcome')
